@@ -279,6 +279,7 @@ func runC11(c *Ctx) {
 	c.c11WrappedReason()
 	c.c11Separators()
 	c.c11ConverterTables()
+	c.c11MessagesAreNotFormats()
 }
 
 // c11Separators (D7): writer and reader of the text form agree. The constructors write "kind<sep> reason" and the
@@ -1293,5 +1294,109 @@ func (c *Ctx) c11ContextualTarget() {
 		}
 		c.check(good, "D10", key, c.ipos(takes[0]), "the cause's kind is taken only where the target is neither a cancellation nor a deadline",
 			name+" gives its result the kind of the cause without having found that the kind it was given is not a cancellation or a deadline: WrapIfNotCommonError(f)(ErrCancelled, New(ErrConflict, …), …) is recognised as 'conflict' and no longer as 'cancelled' — and its sibling (with / without format) answers differently on the same arguments")
+	}
+}
+
+// c11MessagesAreNotFormats (D12): "with any message". New(kind, msg) and the other constructors that take a finished message
+// build their error through the printf-like constructors of the package, handing the message over in the format position
+// with no operands. That is only sound if the printf-like constructor applies the format where operands were given and
+// takes the string as it is otherwise: a message containing '%' ("disk 100% full", "my%20file") is rewritten by Sprintf
+// ("100%!f(MISSING)ull"), again on every hop across a process boundary.
+func (c *Ctx) c11MessagesAreNotFormats() {
+	c.rule("D12", "a printf-like constructor that receives finished messages in its format position (from New and friends, with no operands) formats only where operands were given: its Sprintf lies where len(args) was found positive", 1)
+	printfLike := func(g *ssa.Function) (format, args *ssa.Parameter) {
+		if g == nil || len(g.Blocks) == 0 || !g.Signature.Variadic() {
+			return nil, nil
+		}
+		n := len(g.Params)
+		if n < 2 || g.Params[n-2].Type().String() != "string" {
+			return nil, nil
+		}
+		if sl, ok := g.Params[n-1].Type().Underlying().(*types.Slice); !ok || !types.IsInterface(sl.Elem()) {
+			return nil, nil
+		}
+		return g.Params[n-2], g.Params[n-1]
+	}
+	need := map[*ssa.Function]string{} // printf-like callee → a call site that hands it a message
+	for _, f := range c.srcFuncs(cePkg) {
+		_, fArgs := printfLike(f)
+		allInstrs(f, func(in ssa.Instruction) {
+			cl, ok := in.(*ssa.Call)
+			if !ok {
+				return
+			}
+			g := staticCallee(&cl.Call)
+			if g == nil || !inPkg(cePkg)(g) {
+				return
+			}
+			gf, _ := printfLike(g)
+			if gf == nil {
+				return
+			}
+			na := len(cl.Call.Args)
+			if _, isConst := cl.Call.Args[na-2].(*ssa.Const); isConst {
+				return
+			}
+			// operands: none, or the caller's own (then the caller is a printf-like forwarder and the format is a format)
+			if fArgs != nil && resolveValue(cl.Call.Args[na-1]) == ssa.Value(fArgs) {
+				return
+			}
+			if len(variadicElems(cl.Call.Args[na-1])) > 0 {
+				return
+			}
+			if _, has := need[g]; !has {
+				need[g] = fname(f) + " (" + c.ipos(cl) + ")"
+			}
+		})
+	}
+	var callees []*ssa.Function
+	for g := range need {
+		callees = append(callees, g)
+	}
+	sortFuncs(callees)
+	for _, g := range callees {
+		c.FuncsSeen[fname(g)] = true
+		gf, ga := printfLike(g)
+		var lens []ssa.Value
+		allInstrs(g, func(in ssa.Instruction) {
+			if cl, ok := in.(*ssa.Call); ok && calleeFull(&cl.Call) == "builtin.len" && resolveValue(cl.Call.Args[0]) == ssa.Value(ga) {
+				lens = append(lens, cl)
+			}
+		})
+		bad := ""
+		allInstrs(g, func(in ssa.Instruction) {
+			cl, ok := in.(*ssa.Call)
+			if !ok {
+				return
+			}
+			switch calleeFull(&cl.Call) {
+			case "fmt.Sprintf", "fmt.Errorf", "fmt.Fprintf", "fmt.Appendf":
+			default:
+				return
+			}
+			fi := 0
+			if calleeFull(&cl.Call) == "fmt.Fprintf" || calleeFull(&cl.Call) == "fmt.Appendf" {
+				fi = 1
+			}
+			if resolveValue(cl.Call.Args[fi]) != ssa.Value(gf) {
+				return
+			}
+			guarded := false
+			for _, p := range cl.Block().Preds {
+				for _, l := range lens {
+					if gd := guardsOnEdge(l, p, cl.Block()); gd.hasLo && gd.lo.Sign() > 0 {
+						guarded = true
+					}
+				}
+			}
+			if !guarded {
+				bad = c.ipos(cl)
+			}
+		})
+		c.check(bad == "", "D12", fname(g)+"/formats-only-with-operands", c.pos(g.Pos()), "the format parameter is formatted only where operands were given",
+			fname(g)+" receives finished messages in its format position (from "+need[g]+") yet formats that string at "+bad+" whether operands were given or not: a message containing '%' is rewritten (\"disk 100% full\" → \"disk 100%!f(MISSING)ull\"), in the process and again each time the error is rebuilt on the other side of a process boundary")
+	}
+	if len(callees) == 0 {
+		c.info("D12", cePkg+"/no-message-in-format-position", "-", "no constructor hands a finished message to a printf-like constructor")
 	}
 }
